@@ -1690,7 +1690,7 @@ func c14bCheckAsyncRetry(cs *c14bCase, k int, obs *hpObs, down []hpFrame, send [
 		if len(obs.Stuck) > 0 {
 			full = obs.Stuck[0]
 			f := strings.Fields(full)
-			sig = f[0] + " " + f[1] + fmt.Sprintf(" retried=%v", attempts > 1)
+			sig = f[0] + " " + f[1] + " " + f[2] + fmt.Sprintf(" retried=%v", attempts > 1)
 		}
 		sig += fmt.Sprintf(" terminate=%s deviations=%d", term, r.Cost)
 		report("asynchronous TerminateStream: request never completed (no response, client did not disconnect): "+w+"; "+sig, fmt.Sprintf("state: %s; %s", full, ctx))
